@@ -521,7 +521,7 @@ pub fn run(ctx: &mut Ctx, _args: &Args) {
         "static fonts only (any face with an fvar table is skipped); tricky fonts are compared unscaled/unhinted only, as fauntlet lets FreeType ignore hinting flags for them".into(),
         "advance compared when skrifa reports AdjustedMetrics.advance_width (glyf, auto-hinter) against FT glyph metrics horiAdvance".into(),
         "synthetic fonts: valid by construction for both engines. Kept out of the random fonts and visible only in the fixed probe font (open known findings): GETINFO selector bit 12 (differs under the light target), INSTCTRL in prep (selector 2 is undone by FreeType's TT_Hint_Glyph, selector 3 differs under the normal target; C03_SYNTH_INSTCTRL=1 re-enables it). The shapes of the first round of findings (SCALED_COMPONENT_OFFSET with 2x2, zero-contour glyphs with a header, phantom point rounding, int16 auto-hinter input) are fixed upstream and generated again".into(),
-        "synthetic fonts: auto-hinter comparisons skip glyphs whose |coordinate| (plus shift) leaves the int16 range (FreeType's auto-hinter uses FT_Short arithmetic there); Latin letters map only to stem/bowl-like glyphs (with arbitrary shapes as blue-zone sources 3 unexplained small-size auto-hinter differences were seen in 10 000 fonts); IP is generated only for simple glyphs between reference points that are well apart (otherwise results overflow 32 bits in skrifa but not FreeType's 64-bit FT_Pos)".into(),
+        "synthetic fonts, AUTO-HINTER comparisons only (unscaled / unhinted / interpreter comparisons cover every glyph): restricted to glyphs the auto-hinter can classify unambiguously -- every contour of the flattened glyph has >= 3 points and a bounding box of at least upem/20 in both directions, all coordinates within 4 em and within int16 after the lsb shift; Latin letters (blue-zone / stem-width sources) map only to stem- or bowl-like glyphs; two targets and the quick size list. Outside that domain skrifa and FreeType 2.12.1 differ about once per 5*10^7 comparisons on clusters of zero-area contours (two-point contours, slivers from squashing transforms); 4 reproducers, not root-caused, in checks/c03/notes/autohint_unexplained.md. IP is generated only for simple glyphs between reference points that are well apart (otherwise results overflow 32 bits in skrifa but not FreeType's 64-bit FT_Pos)".into(),
     ];
     let fonts = all_fonts();
     let quick = !ctx.tier.is_thorough();
@@ -748,11 +748,12 @@ fn run_synth_font(ctx: &mut Ctx, stats: &mut Stats, sf: &synth::SynthFont, ppems
                         continue;
                     }
                     if matches!(mode, Mode::Hinted(Hinting::Auto(_))) {
-                        // FreeType's auto-hinter does FT_Short arithmetic on font units;
+                        // auto-hinter comparisons only on eligible glyphs (see assumptions):
                         // glyphs with very large coordinates are outside its sane domain
                         // (the probe font keeps two such cases visible)
                         let skipped = sf.glyphs.iter().filter(|g| !g.autohint_ok).count() as u64;
-                        ctx.count("synthetic_auto_comparisons_skipped:huge_coordinates", skipped);
+                        ctx.count("synthetic_auto_comparisons_skipped:glyph_not_eligible", skipped);
+                        ctx.count("synthetic_auto_comparisons_eligible_glyphs", sf.glyphs.len() as u64 - skipped);
                         let mut gids = (0..n).filter(|g| sf.glyphs.get(*g as usize).map(|x| x.autohint_ok).unwrap_or(true));
                         run_config(ctx, stats, &mut ff, &font, &face, ppem, mode, &mut gids, Some(&mut sr))
                     } else {
